@@ -267,12 +267,24 @@ def generator_oracle(rng, rounds):
         except Exception as e:  # noqa: BLE001
             bad("random_simplicial_complex", (n, seed), f"raised {type(e).__name__}: {e}")
         Gx = nx.gnp_random_graph(n, 0.6, seed=seed)
+        if rng.random() < 0.6:
+            # the same kind of graph with its nodes renamed and its edges inserted in another order and orientation: nothing in
+            # "the cliques of the graph" depends on the adjacency dict being sorted
+            perm = list(range(n)); rng.shuffle(perm)
+            es = [(perm[u], perm[v]) if rng.random() < 0.5 else (perm[v], perm[u]) for u, v in Gx.edges]
+            rng.shuffle(es)
+            G2 = nx.Graph()
+            if rng.random() < 0.5:
+                G2.add_nodes_from(perm)
+            G2.add_edges_from(es)
+            G2.add_nodes_from(range(n))
+            Gx = G2
         mo = rng.randint(1, 3)
         S = xgi.flag_complex(Gx, max_order=mo)
         cl = {frozenset(c) for c in nx.enumerate_all_cliques(Gx) if 2 <= len(c) <= mo + 1}
         got = {frozenset(x) for x in members(S) if len(x) >= 2}
         if got != cl or not is_closed(S):
-            bad("flag_complex", (sorted(Gx.edges), mo), "simplices are not exactly the cliques up to the maximum order")
+            bad("flag_complex", (list(Gx.nodes), list(Gx.edges), mo), "simplices are not exactly the cliques up to the maximum order")
         # probabilistic promotion of cliques: probability 0 promotes none, 1 (or no probability) all
         tri = {frozenset(c) for c in nx.enumerate_all_cliques(Gx) if len(c) == 3}
         gedges = {frozenset(e) for e in Gx.edges}
@@ -285,13 +297,13 @@ def generator_oracle(rng, rounds):
                 g_tri = {x for x in got3 if len(x) == 3}
                 if set(S3.nodes) != set(Gx.nodes) or {x for x in got3 if len(x) == 2} != gedges or not g_tri <= tri \
                    or any(len(x) > 3 for x in got3) or not is_closed(S3):
-                    bad("flag_complex_d2", (sorted(Gx.edges), p2, seed), "nodes / links are not the graph's, or a filled triangle is not a triangle of the graph")
+                    bad("flag_complex_d2", (list(Gx.nodes), list(Gx.edges), p2, seed), "nodes / links are not the graph's, or a filled triangle is not a triangle of the graph")
                 elif p2 in (0, 0.0) and g_tri:
-                    bad("flag_complex_d2", (sorted(Gx.edges), p2, seed), f"probability 0 filled {len(g_tri)} triangles")
+                    bad("flag_complex_d2", (list(Gx.nodes), list(Gx.edges), p2, seed), f"probability 0 filled {len(g_tri)} triangles")
                 elif (p2 is None or p2 in (1, 1.0)) and g_tri != tri:
-                    bad("flag_complex_d2", (sorted(Gx.edges), p2, seed), f"probability 1 / None filled {len(g_tri)} of {len(tri)} triangles")
+                    bad("flag_complex_d2", (list(Gx.nodes), list(Gx.edges), p2, seed), f"probability 1 / None filled {len(g_tri)} of {len(tri)} triangles")
             except Exception as e:  # noqa: BLE001
-                bad("flag_complex_d2", (sorted(Gx.edges), p2, seed), f"raised {type(e).__name__}: {e}")
+                bad("flag_complex_d2", (list(Gx.nodes), list(Gx.edges), p2, seed), f"raised {type(e).__name__}: {e}")
         for ps_ in ([0, 0], [1, 1], [0.0], [1.0, 0.0], [0.5, 0.5]):
             try:
                 with warnings.catch_warnings():
@@ -301,17 +313,17 @@ def generator_oracle(rng, rounds):
                 allcl = {frozenset(c) for c in nx.enumerate_all_cliques(Gx) if 2 <= len(c) <= 4}
                 big = {x for x in got4 if len(x) >= 3}
                 if set(S4.nodes) != set(Gx.nodes) or {x for x in got4 if len(x) == 2} != gedges or not big <= allcl or not is_closed(S4):
-                    bad("flag_complex", (sorted(Gx.edges), 3, ps_, seed), "nodes / links are not the graph's, or a simplex is not a clique")
+                    bad("flag_complex", (list(Gx.nodes), list(Gx.edges), 3, ps_, seed), "nodes / links are not the graph's, or a simplex is not a clique")
                 elif all(q == 0 for q in ps_) and len(ps_) >= 2 and big:
-                    bad("flag_complex", (sorted(Gx.edges), 3, ps_, seed), f"probabilities 0 promoted {len(big)} cliques")
+                    bad("flag_complex", (list(Gx.nodes), list(Gx.edges), 3, ps_, seed), f"probabilities 0 promoted {len(big)} cliques")
                 elif ps_ == [1, 1] and got4 != allcl:
-                    bad("flag_complex", (sorted(Gx.edges), 3, ps_, seed), "probabilities 1 did not promote every clique")
+                    bad("flag_complex", (list(Gx.nodes), list(Gx.edges), 3, ps_, seed), "probabilities 1 did not promote every clique")
                 elif ps_ == [1.0, 0.0] and {x for x in got4 if len(x) == 3} != {x for x in allcl if len(x) == 3}:
-                    bad("flag_complex", (sorted(Gx.edges), 3, ps_, seed), "probability 1 for triangles did not promote every triangle")
+                    bad("flag_complex", (list(Gx.nodes), list(Gx.edges), 3, ps_, seed), "probability 1 for triangles did not promote every triangle")
                 elif ps_ == [1.0, 0.0] and any(len(x) == 4 for x in got4):
-                    bad("flag_complex", (sorted(Gx.edges), 3, ps_, seed), "probability 0 for 4-cliques promoted one")
+                    bad("flag_complex", (list(Gx.nodes), list(Gx.edges), 3, ps_, seed), "probability 0 for 4-cliques promoted one")
             except Exception as e:  # noqa: BLE001
-                bad("flag_complex", (sorted(Gx.edges), 3, ps_, seed), f"raised {type(e).__name__}: {e}")
+                bad("flag_complex", (list(Gx.nodes), list(Gx.edges), 3, ps_, seed), f"raised {type(e).__name__}: {e}")
         for pe in (0, 1, 0.5):
             try:
                 with warnings.catch_warnings():
